@@ -81,4 +81,11 @@ BroadcastOK(e, ins) ==
        /\ (empty \/ Covers(ds, 1, Pos(e.start), IF e.end = UpperStart /\ Bit(e.start, VB - 1) = 0
                                                  THEN PowW(VB - 1) ELSE Pos(e.end), e.s))
 
+-----------------------------------------------------------------------------
+(* register wrappers (C16): value a typed write / update must store, given the previous     *)
+(* content `pre`, the mask `m` of bits the type models, and the arguments                    *)
+Modelled(x, m) == AndW(x, m)
+Unmodelled(x, m) == AndW(x, NotW(m))
+TypedWriteVal(pre, m, f) == OrW(Unmodelled(pre, m), f)
+UpdateVal(pre, m, st, cl) == OrW(Unmodelled(pre, m), AndW(OrW(Modelled(pre, m), st), NotW(cl)))
 =============================================================================
